@@ -50,8 +50,25 @@ THEOREMS = [
     (M, "C18.multi_file_union_observer_order", "the Observer's aggregation (C10 model: details tree + summaries) of a multi-file run is the same for every order of the file pairs: same details under every path, same number in every summary cell, every quiet level and filter"),
     (M, "C18.multi_file_union_observer", "the aggregated report is the union of the single-file reports: under a file's path the details of the run over that pair alone, every summary number the sum over the single-file runs"),
     (M, "C18.warm_reachable", "non-vacuity: a reachable state with re_cache, a compiled matcher regex, both ProjectConfig memos filled and a moved junk counter"),
+    # round 5: the file system is part of the state (CLModel/History/World.lean)
+    (M, "C18.out_independent_world", "out_independent_all with an explicit world fs : Path -> file | link: in every reachable world the output of an operation (readFile, compare [+ merge file], add, lint on PATHS; write / remove / rename / copy / symlink; every operation of the machine) is a function of its arguments, of what is at each path NOW and of the objects it names — never of earlier contents of a path"),
+    (M, "C18.out_same_in_any_two_worlds", "two reachable worlds that hold the same files now return the same result, whatever histories led to them"),
+    (M, "C18.out_equals_fresh_interpreter_on_current_files", "the oracle's statement for the model: the result of an operation on files in any reachable world is the result of a fresh interpreter started on the files as they are now"),
+    (M, "C18.state_forgets_paths", "no component of the process state is keyed by a path: the state after an operation is a function of the state before and of the PATH-FREE operation it resolves to (texts read now)"),
+    (M, "C18.state_keyed_by_contents_only", "the same contents under other paths, in another world, leave the process in the same state"),
+    (M, "C18.fs_ops_leave_process", "write / remove / rename / copy / symlink (and a read whose first open fails) leave the process state untouched"),
+    (M, "C18.world_moves_by_lookStep", "how the world moves is a function of the world before and of the operation: only the five file-system operations and l10n-merge (its target is a file of the world) change it"),
+    (M, "C18.reads_leave_world", "readFile, compare without merge file, add and lint leave every file as it is"),
+    (M, "C18.run_independent_world", "whole histories (reads, writes, renames, links, merges interleaved): two reachable worlds with the same files and live objects return the same results"),
+    (M, "C18.compare_after_rewrite", "the seeded regression as a theorem: compare, rewrite the reference path, compare the same paths again — the second report is the reference semantics of the NEW contents"),
+    (M, "C18.compare_sees_the_current_files", "evaluated witness: reference a=1,b=2 vs a=1 reports b missing; after rewriting the reference PATH to a=1 the compare of the same paths reports nothing missing (a path-keyed cache would be wrong by one string)"),
+    (M, "C18.reads_see_the_current_files", "evaluated history: rewrite, swap by renames, remove, symbolic link followed / re-targeted / dangling / cyclic, copy: add (strings, words) and lint with reference report the files as they are at that moment"),
 ]
 PARTIAL = [
+    "round 5 (world): compare / lint / merge / add on PATHS are tied to the code for ini and inc (base Checker; add counts the words of the "
+    "raw value, which is Entity.val for these formats only), readFile for properties/dtd/ini/inc/po; the other formats, other "
+    "spellings of a path, project directories with TOML includes and compareProjects are covered by the fresh-interpreter oracle "
+    "on the files as they are; directories are implicit, links point to files, a merge target is never a link",
     "out_independent_all covers every operation of the extended machine; compare / lint / merge are modelled with the base Checker "
     "(ini, inc; parse for properties/dtd/ini/inc/po); serialize and merge_channels re-use the C16/C15 models, in which a Junk is "
     "identified by its position (the F8 collision of a junk key with a real key is outside those two models); Fluent, Android, "
@@ -83,6 +100,9 @@ LEVEL_NOTE = ("trusted: Lean kernel; hand-written state models (CLModel/History/
               "the real code shows finding F8 resp. the stale filter cache there)")
 TECHNIQUE = "Lean 4 proof over an explicit global-state model + history-vs-fresh-interpreter differential oracle"
 TRUSTED = [
+    "hand-written model CLModel/History/World.lean of the file system (regular files and symbolic links under opaque path texts, "
+    "directories implicit, merge targets never links) and of readFile / compare / add / lint on paths (tied by the `c18.wrun` "
+    "correspondence: result, junk counter, inc flag and every file of the world after every operation)",
     "hand-written model CLModel/History/State.lean of Junk.junkid, parser singletons, Context objects, findDuplicates and "
     "ContentComparer.compare with the base Checker (tied by the `c18.run` history correspondence)",
     "hand-written model CLModel/History/Machine.lean of the remaining state (inc flag, getParser with entry points, re_cache, "
@@ -92,6 +112,8 @@ TRUSTED = [
     "P.walk of CLModel/Parser (C01) for the entries of one parse",
 ]
 ASSUMPTIONS = [
+    "world histories: no path of the pool is a directory prefix of another one, symbolic links point to files (never to "
+    "directories), a merge target is never a symbolic link; the root directory is private to one history",
     "one Observer without filter per ContentComparer (an empty ObserverList ignores everything)",
     "texts contain no carriage returns; files are read and written as UTF-8",
 ]
@@ -861,7 +883,7 @@ def gen_mhistory(rng, n, mutate=False):
 def machine_correspondence(ctx, out, base, rng):
     """histories of the whole state machine through the real code (one fresh interpreter each) and through
     HistM.step (`c18.mrun`): results AND the digest of every state component after every operation"""
-    hs = [gen_mhistory(rng, rng.randrange(4, 13), mutate=rng.random() < 0.3) for _ in range(ctx.n(110, 900))]
+    hs = [gen_mhistory(rng, rng.randrange(4, 13), mutate=rng.random() < 0.3) for _ in range(ctx.n(96, 900))]
     # directed: cache hits after with_env / set_locales, the inc flag, the entry-point branch
     hs.append([{"op": "env", "ep": "plugin"}, {"op": "getparser", "path": "q.c18x"}, {"op": "getparser", "path": "q.c18x"},
                {"op": "getparser", "path": "a.ini"}, {"op": "getparser", "path": "values.xml"},
@@ -1044,7 +1066,7 @@ def near_and_empty_histories(ctx, rng):
                 {"op": "parse", "fmt": fmt, "text": ref, "via": "file"}]
         names = NEAR[fmt] + ALIAS[fmt]
         if ctx.tier == "quick":
-            names = NEAR[fmt][:3] + ALIAS[fmt][:1]
+            names = NEAR[fmt][:2] + ALIAS[fmt][:1]
         for name in names:
             near = [{"op": "hasparser", "names": [name]},
                     {"op": "compare", "fmt": fmt, "ref": ref, "l10n": l10n, "name": name},
@@ -1067,10 +1089,538 @@ def near_and_empty_histories(ctx, rng):
                     {"op": "add", "fmt": fmt, "ref": e},
                     {"op": "parse", "fmt": fmt, "text": e, "via": "file"},
                     {"op": "serialize", "fmt": fmt, "ref": ref, "old": e, "new": []}]
-            for o in eops:
+            for o in (eops if ctx.tier != "quick" else rng.sample(eops, 6)):
                 hs.append(("empty", [rng.choice(real), o]))
             hs.append(("empty", [real[0]] + eops))
     return hs
+
+
+# ---------------------------------------------------------------- round 5: FILE IDENTITY (a world of paths)
+W_MODEL_CMP = ("ini", "inc")
+W_TOML_MAIN = """basepath = "."
+locales = %(locales)s
+[[paths]]
+  reference = "en/main/**"
+  l10n = "{l10n_base}/{locale}/main/**"
+%(filters)s%(includes)s"""
+W_TOML_SUB = """basepath = ".."
+%(locales)s[[paths]]
+  reference = "en/browser/%(glob)s"
+  l10n = "{l10n_base}/{locale}/browser/%(glob)s"
+%(filters)s"""
+
+
+def w_write(rel, text, **opts):
+    return {"op": "wfs", "do": [["write", rel, text] + ([opts] if opts else [])], "nocmp": True}
+
+
+def w_act(*act):
+    return {"op": "wfs", "do": [list(act)], "nocmp": True}
+
+
+def w_swap(a, b):
+    """the contents of two paths change places (three renames: the entries themselves move)"""
+    return [w_act("rename", a, "swap.tmp"), w_act("rename", b, a), w_act("rename", "swap.tmp", b)]
+
+
+def same_size(text, rng):
+    """another text of the same length (a cache validated by the size of the file does not notice)"""
+    idx = [i for i, c in enumerate(text) if c.isalnum()]
+    if not idx:
+        return text
+    i = idx[-1] if rng.random() < 0.6 else rng.choice(idx)
+    c = "x" if text[i] != "x" else "y"
+    return text[:i] + c + text[i + 1:]
+
+
+class WGen:
+    """histories over a small pool of paths of ONE format: the same path carries different contents at different
+    times.  Unit = [compare-locales operation on paths; file-system change of one of ITS paths; the operation (or
+    another one on the same paths) again]."""
+
+    def __init__(self, rng, fmt, model=False):
+        self.rng, self.fmt, self.model = rng, fmt, model
+        name = FNAME_[fmt]
+        self.name = name
+        self.refs = ["ref/" + name, "ref2/" + name, "ref/sub/" + name]
+        self.l10ns = ["l10n/" + name, "l10n2/" + name]
+        self.link = "lnk/" + name
+        self.merge = "merge/" + name
+        self.vers = []
+        for _ in range(4):
+            ref, l10n = gen_pair(rng, fmt)
+            self.vers.append((ref, l10n))
+        self.ops = []
+        self.ver = {}          # path -> index of the version it holds (None: something else)
+
+    def text(self, role, avoid=None):
+        i = self.rng.randrange(len(self.vers))
+        t = self.vers[i][0 if role == "ref" else 1]
+        if t == avoid:
+            t = self.vers[(i + 1) % len(self.vers)][0 if role == "ref" else 1]
+        if t == avoid:
+            t2 = same_size(t, self.rng)
+            t = t2 if t2 != t else t + "\n"
+        return t
+
+    def role(self, path):
+        return "ref" if path.startswith(("ref", "lnk")) else "l10n"
+
+    def setup(self):
+        rng = self.rng
+        self.cur = {}          # path -> text we last wrote (best effort; only used to pick DIFFERENT contents)
+        for pth in self.refs[:2] + self.l10ns[:1]:
+            t = self.text(self.role(pth), avoid=self.cur.get(self.refs[0]) if pth == self.refs[1] else None)
+            self.cur[pth] = t
+            self.ops.append(w_write(pth, t))
+
+    def cl_op(self, kind=None, ref=None, l10n=None):
+        rng, fmt = self.rng, self.fmt
+        ref = ref or self.refs[0]
+        l10n = l10n or self.l10ns[0]
+        kind = kind or rng.choice(["wcompare"] * 5 + ["wadd", "wadd", "wlint", "wlint", "wread", "wmerge"])
+        extra = ["android-dtd"] if (fmt == "dtd" and rng.random() < 0.3) else None
+        if self.model and kind == "wread" and rng.random() < 0.5:
+            kind = "wmerge"
+        if kind in ("wcompare", "wmerge"):
+            op = {"op": "wcompare", "fmt": fmt, "ref": ref, "l10n": l10n}
+            if kind == "wmerge":
+                op["merge"] = self.merge
+            if rng.random() < 0.3:
+                op["cc"] = "shared"
+            if extra:
+                op["extra"] = extra
+            return op
+        if kind == "wadd":
+            op = {"op": "wadd", "fmt": fmt, "ref": ref}
+            if rng.random() < 0.25 and not self.model:
+                op["merge"] = self.merge
+            if rng.random() < 0.3:
+                op["cc"] = "shared"
+            return op
+        if kind == "wlint":
+            op = {"op": "wlint", "fmt": fmt, "cur": l10n, "ref": ref if rng.random() < 0.75 else None}
+            if rng.random() < 0.3:
+                op["linter"] = "shared"
+            if extra:
+                op["extra"] = extra
+            return op
+        return {"op": "wread", "fmt": fmt, "path": rng.choice([ref, l10n])}
+
+    def paths_of(self, op):
+        return [op[k] for k in ("ref", "l10n", "cur", "path") if op.get(k)]
+
+    def respell(self, op):
+        """the same file under another spelling of its path"""
+        op = dict(op)
+        k = self.rng.choice([k for k in ("ref", "l10n", "cur", "path") if op.get(k)])
+        d, b = op[k].rsplit("/", 1)
+        op[k] = self.rng.choice([d + "/./" + b, d + "//" + b, d + "/x/../" + b, "./" + op[k]])
+        if op["op"] in ("wcompare", "wadd") and k != "ref":
+            pass
+        op["respelled"] = True
+        return op
+
+    def unit(self):
+        """[c; change one of c's files; c again (or a sibling operation on the same paths)]"""
+        rng = self.rng
+        c = self.cl_op()
+        self.ops.append(c)
+        tgt = rng.choice(self.paths_of(c))
+        role = self.role(tgt)
+        others = [p for p in (self.refs if role == "ref" else self.l10ns) if p != tgt]
+        c2 = dict(c)
+        k = rng.choice(["rewrite"] * 4 + ["samesize", "keepmtime", "swap", "recreate", "remove", "otherdir", "symlink",
+                                          "retarget", "replace", "copyback", "respell" if not self.model else "cycle"])
+        new = self.text(role, avoid=self.cur.get(tgt))
+        if k == "rewrite":
+            self.ops.append(w_write(tgt, new))
+        elif k == "samesize":
+            old = self.cur.get(tgt)
+            new = same_size(old, rng) if old else new
+            self.ops.append(w_write(tgt, new))
+        elif k == "keepmtime":
+            old = self.cur.get(tgt)
+            if old and rng.random() < 0.5:
+                new = same_size(old, rng)
+            self.ops.append(w_write(tgt, new, keep_mtime=True))
+        elif k == "swap":
+            o = others[0]
+            if o not in self.cur or self.cur[o] == self.cur.get(tgt):
+                self.cur[o] = self.text(role, avoid=self.cur.get(tgt))
+                self.ops.append(w_write(o, self.cur[o]))
+            self.ops += w_swap(tgt, o)
+            new, self.cur[o] = self.cur[o], self.cur.get(tgt)
+        elif k == "recreate":
+            self.ops.append(w_act("remove", tgt))
+            if rng.random() < 0.4:
+                self.ops.append(dict(c))           # the operation on the missing file, too
+            self.ops.append(w_write(tgt, new))
+        elif k == "remove":
+            self.ops.append(w_act("remove", tgt))
+            new = None
+        elif k == "otherdir":
+            # the same base name in another directory, other contents: the second operation names THAT path
+            o = others[0]
+            self.cur[o] = self.text(role, avoid=self.cur.get(tgt))
+            self.ops.append(w_write(o, self.cur[o]))
+            for key in ("ref", "l10n", "cur", "path"):
+                if c2.get(key) == tgt:
+                    c2[key] = o
+            new = self.cur.get(tgt)
+        elif k in ("symlink", "retarget"):
+            # the path becomes a symbolic link to a file with other contents (then to yet another one)
+            o = others[0]
+            self.cur[o] = self.text(role, avoid=self.cur.get(tgt))
+            self.ops.append(w_write(o, self.cur[o]))
+            self.ops.append(w_act("symlink", tgt, o))
+            new = self.cur[o]
+            if k == "retarget":
+                self.ops.append(dict(c))
+                o2 = others[-1]
+                self.cur[o2] = self.text(role, avoid=new)
+                self.ops.append(w_write(o2, self.cur[o2]))
+                self.ops.append(w_act("symlink", tgt, o2))
+                new = self.cur[o2]
+        elif k == "replace":
+            # another file is renamed onto the path
+            self.ops.append(w_write("incoming.tmp", new))
+            self.ops.append(w_act("rename", "incoming.tmp", tgt))
+        elif k == "copyback":
+            # the old contents survive under another path; the path itself gets new contents
+            self.ops.append(w_act("copy", tgt, others[0]))
+            self.cur[others[0]] = self.cur.get(tgt)
+            self.ops.append(w_write(tgt, new))
+        elif k == "respell":
+            self.ops.append(w_write(tgt, new))
+            c2 = self.respell(c2)
+        elif k == "cycle":
+            # a link to nothing, then a cycle of two links
+            self.ops.append(w_act("symlink", tgt, "nowhere/" + self.name))
+            self.ops.append(dict(c))
+            self.ops.append(w_act("symlink", "nowhere/" + self.name, tgt))
+            new = None
+        self.cur[tgt] = new
+        if c["op"] == "wcompare" and c.get("merge") and rng.random() < 0.5:
+            # the staged file of the first run is an input of the second
+            c2 = rng.choice([{"op": "wread", "fmt": self.fmt, "path": self.merge},
+                             {"op": "wcompare", "fmt": self.fmt, "ref": c["ref"], "l10n": self.merge},
+                             dict(c, l10n=self.merge, merge=self.merge + ".2")])
+        elif rng.random() < 0.3:
+            # another operation on the same paths: compare after add (the regression's "counted as a missing file"), ...
+            c2 = self.cl_op(ref=c2.get("ref") or self.refs[0], l10n=c2.get("l10n") or c2.get("cur") or self.l10ns[0])
+        self.ops.append(c2)
+
+    def history(self, units):
+        self.setup()
+        for _ in range(units):
+            self.unit()
+        return self.ops
+
+
+def w_directed(fmt, rng):
+    """the seeded regression and its nearest relatives, once per format: compare / add / lint / readFile of a path, the
+    reference rewritten, the same operation again; across ContentComparer instances and on one instance"""
+    name = FNAME_[fmt]
+    R, L = "ref/" + name, "l10n/" + name
+    (r0, l0), (r1, l1) = gen_pair(rng, fmt), gen_pair(rng, fmt)
+    while r1 == r0:
+        r1, l1 = gen_pair(rng, fmt)
+    cmp_ = {"op": "wcompare", "fmt": fmt, "ref": R, "l10n": L}
+    add = {"op": "wadd", "fmt": fmt, "ref": R}
+    lint = {"op": "wlint", "fmt": fmt, "cur": L, "ref": R}
+    rd = {"op": "wread", "fmt": fmt, "path": R}
+    return [w_write(R, r0), w_write(L, l0), cmp_, add, lint, rd, w_write(R, r1), cmp_, add, lint, rd,
+            w_write(L, l1), dict(cmp_, cc="shared"), lint, w_write(R, r0), dict(cmp_, cc="shared"), dict(add, cc="shared"),
+            # the same size and the same modification time as before, other contents
+            w_write(R, same_size(r0, rng), keep_mtime=True), cmp_, add, lint,
+            # the reference disappears and comes back (os.path.isfile / exists answers change)
+            w_act("remove", R), lint, cmp_, w_write(R, r1), lint, cmp_]
+
+
+def w_filter(pth, key, action):
+    return '[[filters]]\n  path = "{l10n_base}/{locale}/%s"\n  key = "%s"\n  action = "%s"\n' % (pth, key, action)
+
+
+def w_main_toml(v):
+    """variants of the main configuration that differ observably: locales, a key filter, the include"""
+    return W_TOML_MAIN % {"locales": json.dumps([["de", "fr"], ["de"], ["de", "fr"], ["de", "fr"]][v % 4]),
+                          "filters": ["", "", w_filter("main/**", KEYS[(v // 4) % len(KEYS)], "ignore"), ""][v % 4],
+                          "includes": "" if v % 4 == 3 else '[[includes]]\n  path = "sub/l10n.toml"\n'}
+
+
+def w_sub_toml(v, exts):
+    """variants of the INCLUDED configuration: all of browser/, only one locale, only one file type, a key filter"""
+    k = v % 4
+    return W_TOML_SUB % {"locales": 'locales = ["de"]\n' if k == 1 else "",
+                         "glob": ("**/*." + exts[(v // 4) % len(exts)]) if k == 2 else "**",
+                         "filters": "".join(w_filter("browser/**", key, "ignore") for key in KEYS[:3]) if k == 3 else ""}
+
+
+def w_project_history(rng):
+    """a project directory (TOML with an INCLUDED TOML, reference and two locales) that is compared, changed, compared
+    again: references and localizations rewritten / removed / added / swapped, both configuration files rewritten.
+    The main configuration covers main/, the included one browser/: what the included file says is observable."""
+    files = []
+    for i, (rel, ref, l10n) in enumerate(gen_files(rng, 4)):
+        base_ = rel.split("/")[-1]
+        files.append([("browser/" if i % 2 == 0 else "main/") + base_, ref, l10n])
+    exts = sorted({rel.rsplit(".", 1)[-1] for rel, _, _ in files if rel.startswith("browser/")})
+    mv, sv = rng.randrange(64), rng.randrange(64)
+    ops = [w_write("l10n.toml", w_main_toml(mv)), w_write("sub/l10n.toml", w_sub_toml(sv, exts))]
+    have = {}
+    for rel, ref, l10n in files:
+        ops.append(w_write("en/" + rel, ref))
+        have["en/" + rel] = ref
+        for loc in ("de", "fr"):
+            if rng.random() < 0.8:
+                t = l10n if loc == "de" else ref
+                ops.append(w_write("l/%s/%s" % (loc, rel), t))
+                have["l/%s/%s" % (loc, rel)] = t
+    proj = {"op": "wproject", "config": "l10n.toml", "l10n_base": "l", "locales": ["de", "fr"]}
+    if rng.random() < 0.3:
+        proj["merge"] = "stage"
+    ops.append(proj)
+    for _ in range(rng.randrange(2, 5)):
+        rel, ref, l10n = rng.choice(files)
+        fmt = next(f for f in FORMATS if FNAME_[f].rsplit(".", 1)[-1] == rel.rsplit(".", 1)[-1] or
+                   (f == "android" and rel.endswith("strings.xml")))
+        k = rng.choice(["ref", "ref", "ref", "l10n", "rm-l10n", "rm-l10n", "rm-ref", "new", "new", "new-l10n", "toml", "subtoml",
+                        "subtoml", "rm-sub", "swap", "cmp"])
+        nref, nl10n = gen_pair(rng, fmt)
+        if k == "ref":
+            ops.append(w_write("en/" + rel, nref if nref != have.get("en/" + rel) else nref + "\n"))
+        elif k == "l10n":
+            ops.append(w_write("l/de/" + rel, nl10n))
+        elif k == "rm-l10n":
+            # the file becomes a MISSING file (ContentComparer.add counts the reference) — and the reference changes
+            ops.append(w_act("remove", "l/%s/%s" % (rng.choice(["de", "fr"]), rel)))
+            if rng.random() < 0.5:
+                ops.append(dict(proj))
+                ops.append(w_write("en/" + rel, nref))
+        elif k == "rm-ref":
+            ops.append(w_act("remove", "en/" + rel))
+        elif k == "new":
+            d, b_ = rel.rsplit("/", 1)
+            ops.append(w_write("en/%s/new-%s" % (d, b_) if fmt != "android" else "en/%s/new/%s" % (d, b_), nref))
+        elif k == "new-l10n":
+            # a file appears in the localization only (obsolete file), later also in the reference
+            d, b_ = rel.rsplit("/", 1)
+            extra_ = "%s/extra-%s" % (d, b_) if fmt != "android" else "%s/extra/%s" % (d, b_)
+            ops.append(w_write("l/de/" + extra_, nl10n))
+            if rng.random() < 0.5:
+                ops.append(dict(proj))
+                ops.append(w_write("en/" + extra_, nref))
+        elif k == "toml":
+            mv += rng.randrange(1, 4)
+            ops.append(w_write("l10n.toml", w_main_toml(mv)))
+        elif k == "subtoml":
+            sv += rng.randrange(1, 4)
+            ops.append(w_write("sub/l10n.toml", w_sub_toml(sv, exts)))
+        elif k == "rm-sub":
+            ops.append(w_act("remove", "sub/l10n.toml"))
+            if rng.random() < 0.5:
+                ops.append(dict(proj, ignore_missing=True))
+                sv += rng.randrange(1, 4)
+                ops.append(w_write("sub/l10n.toml", w_sub_toml(sv, exts)))
+        elif k == "swap":
+            ops += w_swap("en/" + rel, "l/de/" + rel)
+        elif k == "cmp":
+            # one file of the project through ContentComparer directly, then the reference changes
+            ops.append({"op": "wcompare", "fmt": fmt, "ref": "en/" + rel, "l10n": "l/de/" + rel, "name": rel})
+            ops.append(w_write("en/" + rel, nref))
+        ops.append(dict(proj))
+    return ops
+
+
+def w_tokens(o):
+    """`c18.wrun` tokens of one operation, or None when the model does not cover it"""
+    k = o["op"]
+    if k == "wfs":
+        if len(o["do"]) != 1:
+            return None
+        a = o["do"][0]
+        if a[0] == "write":
+            return ["write", C.enc(a[1]), C.enc(a[2])]
+        if a[0] == "remove":
+            return ["remove", C.enc(a[1])]
+        if a[0] in ("rename", "copy", "symlink"):
+            return [a[0], C.enc(a[1]), C.enc(a[2])]
+        return None
+    if o.get("respelled") or o.get("extra") or o.get("name"):
+        return None
+    if any(isinstance(o.get(f), str) and os.path.normpath(o[f]) != o[f] for f in ("ref", "l10n", "cur", "path", "merge")):
+        return None         # another spelling of a path: paths are opaque texts in the model
+    if k == "wcompare" and o["fmt"] in W_MODEL_CMP:
+        return ["wcompare", o["fmt"], C.enc(o["ref"]), C.enc(o["l10n"]), C.enc(o["merge"]) if o.get("merge") else "-"]
+    if k == "wadd" and o["fmt"] in W_MODEL_CMP and not o.get("merge"):      # word counts: `val` is `raw_val` for ini / inc only
+        return ["wadd", o["fmt"], C.enc(o["ref"])]
+    if k == "wlint" and o["fmt"] in W_MODEL_CMP:
+        return ["wlint", o["fmt"], C.enc(o["cur"]), C.enc(o["ref"]) if o.get("ref") else "-"]
+    if k == "wread" and o["fmt"] in MODEL_PARSE:
+        return ["readfile", o["fmt"], C.enc(o["path"])]
+    if k in ("parse", "compare", "lint", "merge") and model_ok_m(o):
+        return m_tokens(o)
+    return None
+
+
+def model_ok_m(o):
+    if o.get("name") or o.get("extra") or o.get("via") or o.get("keyed"):
+        return False
+    if o["op"] == "parse":
+        return o["fmt"] in MODEL_PARSE
+    return o["fmt"] in W_MODEL_CMP
+
+
+def w_fresh_op(o):
+    """the operation as a fresh interpreter runs it (a shared ContentComparer / linter is a new one there anyway)"""
+    return {k: v for k, v in o.items() if k not in ("cc", "linter", "respelled")}
+
+
+def world_stream(ctx, out, base, rng):
+    """FILE IDENTITY: histories in which the same path carries different contents at different times.  Oracle: the result
+    of every compare-locales operation equals the result of the same operation in a FRESH interpreter on a copy of
+    the files as they were at that moment.  Correspondence: the histories the model covers through `c18.wrun`
+    (result, junk counter, inc flag and EVERY file of the world after every operation)."""
+    hs = []
+    for fmt in FORMATS:
+        hs.append(("directed", fmt, w_directed(fmt, rng)))
+    fmts = FORMATS + ["ini", "inc", "ini", "inc", "properties", "dtd"]
+    for i in range(ctx.n(22, 160)):
+        fmt = fmts[i % len(fmts)]
+        g = WGen(rng, fmt)
+        hs.append(("pool", fmt, g.history(rng.randrange(2, 5))))
+    for _ in range(ctx.n(6, 40)):
+        hs.append(("project", None, w_project_history(rng)))
+    # more histories for the correspondence only (ini / inc: every operation is one the model has)
+    for i in range(ctx.n(12, 120)):
+        g = WGen(rng, ["ini", "inc"][i % 2], model=True)
+        hs.append(("modelonly", g.fmt, g.history(rng.randrange(2, 6))))
+    # some path-free operations in between (the shared parsers read other texts): model histories stay model histories
+    for tag, fmt, h in hs:
+        if tag == "pool" and rng.random() < 0.4:
+            f2 = rng.choice(MODEL_PARSE)
+            h.insert(rng.randrange(3, len(h)), {"op": "parse", "fmt": f2, "text": rng.choice(gen_pair(rng, f2) + tuple(STATEFUL.get(f2, [])))})
+    runs = [[{"op": "wenv", "root": "w%d" % i}] + h for i, (_, _, h) in enumerate(hs)]
+    used = fresh_calls(base, runs, timeout=60.0)
+    # every distinct (operation, world) once in a fresh interpreter
+    jobs, index = [], {}
+    for (tag, fmt, h), res in zip(hs, used):
+        if not isinstance(res, list) or tag == "modelonly":
+            continue
+        for o, r in zip(h, res[1:]):
+            if o.get("nocmp") or "world" not in r:
+                continue
+            key = opkey({"o": w_fresh_op(o), "w": r["world"]})
+            if key not in index:
+                index[key] = len(jobs)
+                jobs.append([{"op": "wenv", "root": "f%d" % len(jobs)}, {"op": "wrestore", "world": r["world"]}, w_fresh_op(o)])
+    fres = fresh_calls(base, jobs, timeout=60.0)
+    out.count("processes", len(runs) + len(jobs))
+    lines, expect = [], []
+    shrink_budget = [3]
+    for (tag, fmt, h), res in zip(hs, used):
+        if not isinstance(res, list):
+            out.violations.append({"what": "world history did not finish / adapter failed: %r" % (res,),
+                                   "input": {"history": [{"op": "wenv", "root": "w"}] + h, "index": len(h)}, "finding": None})
+            continue
+        out.count("world.histories." + tag)
+        rewritten = False
+        for i, (o, r) in enumerate(zip(h, res[1:])):
+            if o["op"] == "wfs":
+                rewritten = rewritten or i > 3
+                continue
+            if o.get("nocmp") or "world" not in r or tag == "modelonly":
+                continue
+            out.evaluations += 1
+            out.count("world." + o["op"])
+            fr = fres[index[opkey({"o": w_fresh_op(o), "w": r["world"]})]]
+            hist = [{"op": "wenv", "root": "w"}] + h[:i + 1]
+            if not isinstance(fr, list) or "canon" not in fr[2]:
+                out.violations.append({"what": "operation failed in a fresh interpreter on a copy of the files: %r" % (fr,),
+                                       "input": {"history": hist, "index": i + 1}, "finding": None})
+                continue
+            if fr[2]["canon"] != r["canon"]:
+                finding = FINDING if clash_rootcause_w(o, r["world"], [fr[2]["jid"], r["jid"]]) else None
+                out.violations.append({"what": "result of %s (%s) is not the result of a fresh interpreter on the files as "
+                                               "they are now: it depends on what was at these paths / processed before"
+                                               % (o["op"], o.get("fmt", "-")),
+                                       "input": w_shrink(base, hist, i + 1, shrink_budget),
+                                       "fresh": fr[2]["canon"][:700], "after_history": r["canon"][:700], "finding": finding})
+            elif rewritten and len(r["canon"]) > 40:
+                out.nontrivial.add("W" + hashlib.sha256(r["canon"].encode()).hexdigest()[:16])
+        # correspondence
+        toks = [w_tokens(o) for o in h]
+        if ctx.model_ok and all(t is not None for t in toks):
+            lines.append("c18.wrun " + " ".join(x for t in toks for x in t))
+            expect.append((h, res[1:]))
+    mres = C.run_driver_parallel(lines) if lines else []
+    for (h, res), mo in zip(expect, mres):
+        got = mo.split(" || ")
+        out.count("world.model_histories")
+        for i, (o, e) in enumerate(zip(h, res)):
+            out.evaluations += 1
+            out.count("worldmodel." + o["op"])
+            exp = "%s @@ %s" % (e.get("model"), e.get("state"))
+            g = got[i] if i < len(got) else "<missing>"
+            if exp != g:
+                out.disagreements.append({"op": "c18.wrun", "history": h[:i + 1], "index": i, "impl": exp[:1500], "model": g[:1500]})
+                break
+            if o["op"] != "wfs" and i > 4:
+                out.nontrivial.add("WM" + hashlib.sha256(exp.encode()).hexdigest()[:16])
+
+
+def w_shrink(base, hist, idx, budget):
+    """a shorter history with the same failure: drop operations (never the last one) while the last result still
+    differs from the fresh one on the files it met.  Greedy, bounded (the first few violations only); every candidate
+    runs in a directory of its own."""
+    cur = list(hist[:idx + 1])
+    budget[0] -= 1
+    serial = [0]
+
+    def root():
+        serial[0] += 1
+        return {"op": "wenv", "root": "shrink%d_%d" % (budget[0], serial[0])}
+    for _ in range(4 if budget[0] >= 0 else 0):
+        cands = [[root()] + cur[1:j] + cur[j + 1:] for j in range(1, len(cur) - 1)][:14]
+        if not cands:
+            break
+        rs = fresh_calls(base, cands, timeout=60.0)
+        ok = [(c, r) for c, r in zip(cands, rs) if isinstance(r, list) and len(r) == len(c) and "world" in r[-1]]
+        fs = fresh_calls(base, [[root(), {"op": "wrestore", "world": r[-1]["world"]}, w_fresh_op(c[-1])] for c, r in ok], timeout=60.0)
+        nxt = None
+        for (c, r), f in zip(ok, fs):
+            if isinstance(f, list) and len(f) == 3 and "canon" in f[2] and "canon" in r[-1] and f[2]["canon"] != r[-1]["canon"]:
+                nxt = c
+                break
+        if nxt is None:
+            break
+        cur = nxt
+    cur = [{"op": "wenv", "root": "w"}] + cur[1:]
+    return {"history": cur, "index": len(cur) - 1}
+
+
+def clash_rootcause_w(o, world, jid_ranges):
+    """F8 on files: the operation's texts as the world holds them"""
+    if "fmt" not in o:
+        return False
+    files = {rel: data for rel, kind, data in world if kind == "f"}
+    links = {rel: data for rel, kind, data in world if kind == "l"}
+
+    def get(rel):
+        rel = os.path.normpath(rel).replace(os.sep, "/") if rel else rel
+        for _ in range(8):
+            if rel in links:
+                rel = links[rel]
+        return files.get(rel)
+    op = {"fmt": o["fmt"], "op": "compare"}
+    for k, f in (("ref", "ref"), ("l10n", "l10n"), ("cur", "cur"), ("path", "text")):
+        if o.get(k):
+            op[f] = get(o[k])
+    try:
+        return clash_rootcause(op, jid_ranges)
+    except Exception:       # noqa: the predicate only tags
+        return False
 
 
 def strip(op):
@@ -1106,6 +1656,12 @@ def run(ctx):
                 "ContentComparer) over properties/dtd/ini/inc/po/ftl/android, every operation's result compared with the same "
                 "operation in a fresh interpreter; 4-file projects in all 24 orders vs. the union of single-file runs; held "
                 "entity objects re-read after the parser was reused; model histories through Hist.run. "
+                "FILE IDENTITY: histories over a small pool of paths per format in which the same path carries different contents at "
+                "different times (rewrite, same-size rewrite, rewrite with the old mtime, swap by renames, delete + recreate, "
+                "rename onto, copy away, same base name in another directory, symbolic link / re-targeted link, another spelling "
+                "of the path), for reference, localization, linted file, lint reference, merge target (read back as input) and "
+                "project directories with TOML configuration + included TOML; every compare-locales operation against a fresh "
+                "interpreter on a copy of the files as they were at that moment. "
                 "non-trivial = an operation evaluated after the junk counter had moved (state really differs from a fresh "
                 "interpreter) whose result is not empty; distinct = distinct canonical results among those")
     base = tempfile.mkdtemp(prefix="verif-c18-")
@@ -1142,11 +1698,11 @@ def _run(ctx, out, base):
     core.append({"op": "parse", "fmt": "inc", "text": "#filter emptyLines\n\n\n#define a 1\n"})
     core.append({"op": "parse", "fmt": "inc", "text": "# c\n#define a 1\n\n\n# d\n\n\n#define b 2\n#filter emptyLines\n# e\n\n\n#define c 3\n"})
     pool_ops = list(core)
-    for _ in range(ctx.n(170, 1400)):
+    for _ in range(ctx.n(145, 1400)):
         pool_ops.append(gen_op(rng))
     probes = collision_probes()
     model_pool = [o for o in pool_ops if model_ok(o)]
-    while len(model_pool) < ctx.n(80, 500):
+    while len(model_pool) < ctx.n(70, 500):
         o = gen_op(rng, rng.choice(["parse", "compare"]), rng.choice(MODEL_PARSE))
         if model_ok(o):
             model_pool.append(o)
@@ -1175,19 +1731,24 @@ def _run(ctx, out, base):
             histories.append(("pair", [o_, rng.choice(pair_core)]))
     for a, b in itertools.product(pair_core, repeat=2):
         histories.append(("pair", [a, b]))
-    for _ in range(ctx.n(150, 1500)):
+    for _ in range(ctx.n(118, 1500)):
         n = rng.randrange(3, 7)
         histories.append(("random", [rng.choice(pool_ops) for _ in range(n)]))
-    for _ in range(ctx.n(120, 1500)):
+    for _ in range(ctx.n(95, 1500)):
         n = rng.randrange(2, 7)
         histories.append(("model", [rng.choice(model_pool) for _ in range(n)]))
     # mozpath.match keeps a module-level cache of compiled patterns: every ordered pair of patterns
     mpaths = ["foo/bar", "foo", "foo/x/baz", "a.dtd", "browser/a/b.ftl", "fxo/y/x", "foo/baz", "foo/x/y/baz", "foo/a/b"]
     mpats = ["foo/*", "foo/**", "**/bar", "foo/**/baz", "foo/*/baz", "*.dtd", "browser/**", "foo/bar", "f*o/*/x"]
-    for a, b in itertools.product(mpats, repeat=2):
-        if a != b:
-            histories.append(("mozpair", [{"op": "mozmatch", "pattern": a, "paths": mpaths},
-                                          {"op": "mozmatch", "pattern": b, "paths": mpaths}]))
+    mpairs = [(a, b) for a, b in itertools.product(mpats, repeat=2) if a != b]
+    if ctx.tier == "quick":
+        # always the pairs that differ only in `*` / `**` (a cache key that confuses them), half of the others
+        near_ = [(a, b) for a, b in mpairs if a.replace("**", "*") == b.replace("**", "*")]
+        rest_ = [x for x in mpairs if x not in near_]
+        mpairs = near_ + rng.sample(rest_, len(rest_) // 2)
+    for a, b in mpairs:
+        histories.append(("mozpair", [{"op": "mozmatch", "pattern": a, "paths": mpaths},
+                                      {"op": "mozmatch", "pattern": b, "paths": mpaths}]))
     histories += near_and_empty_histories(ctx, rng)
     histories += repeat_histories(ctx, rng)
     for p in probes:
@@ -1196,7 +1757,7 @@ def _run(ctx, out, base):
         histories.append(("probe", [p, p]))
     # entity objects held across a history
     hold_hist = []
-    for i in range(ctx.n(40, 300)):
+    for i in range(ctx.n(32, 300)):
         fmt = rng.choice(FORMATS)
         ref, l10n = gen_pair(rng, fmt)
         hold = {"op": "hold", "fmt": fmt, "text": rng.choice([ref, l10n]), "id": 1, "walk": rng.random() < 0.6}
@@ -1307,7 +1868,7 @@ def _run(ctx, out, base):
                                    "input": {"history": [h[0]], "index": 0}, "finding": None})
 
     # ---- multi-file projects: all orders = union of the single-file runs
-    nproj = ctx.n(8, 50)
+    nproj = ctx.n(7, 50)
     jobs, meta = [], []
     for pi in range(nproj):
         files = gen_files(rng, 4)
@@ -1431,6 +1992,7 @@ def _run(ctx, out, base):
     machine_correspondence(ctx, out, base, ctx.rng("c18.machine"))
     junkkey_correspondence(ctx, out, base, ctx.rng("c18.junkkey"))
     plugin_stream(ctx, out, base, ctx.rng("c18.plugin"))
+    world_stream(ctx, out, base, ctx.rng("c18.world"))
     if not out.distribution.get("probe.dup.differs") and not out.distribution.get("probe.equal.differs"):
         out.notes.append("collision probes did not change any report")
     out.contracts["collision_probes"] = {k: v for k, v in out.distribution.items() if k.startswith("probe.")}
@@ -1450,6 +2012,19 @@ def replay(payload):
                 res.append({"input": i, "violates": None, "note": "replay supports history inputs only"})
                 continue
             h = [strip(o) for o in i["history"]]
+            if h and h[0].get("op") == "wenv":
+                idx = i.get("index")
+                idx = len(h) - 1 if idx is None else idx
+                a = fresh_calls(base, [h[:idx + 1]], timeout=60.0)[0]
+                if not isinstance(a, list) or "world" not in a[idx]:
+                    res.append({"input": i, "violates": True, "after_history": str(a)[:300]})
+                    continue
+                b = fresh_calls(base, [[{"op": "wenv", "root": "replay-fresh"}, {"op": "wrestore", "world": a[idx]["world"]},
+                                        w_fresh_op(h[idx])]], timeout=60.0)[0]
+                bad = not isinstance(b, list) or a[idx]["canon"] != b[2].get("canon")
+                res.append({"input": i, "violates": bool(bad), "after_history": a[idx]["canon"][:700],
+                            "fresh": b[2].get("canon", "")[:700] if isinstance(b, list) else b})
+                continue
             if any(o["op"] == "reobs" for o in h):
                 r = fresh_calls(base, [h])[0]
                 bad = isinstance(r, list) and r[0].get("raw") != r[-1].get("raw")
